@@ -20,15 +20,16 @@ import (
 var (
 	tObjA  = hs.TObj(hs.Field{Name: "a", T: hs.TInt})
 	tObjAB = hs.TObj(hs.Field{Name: "a", T: hs.TInt}, hs.Field{Name: "b", T: hs.TStr})
+	tObjOR = hs.TObj(hs.Field{Name: "o", T: hs.TOpt(hs.TInt)}, hs.Field{Name: "r", T: hs.TRange})
 )
 
 // typeInsts are the representative instantiations of every type kind.
 var typeInsts = []hs.Type{
 	hs.TInt, hs.TFloat, hs.TBool, hs.TStr, hs.TRange,
 	hs.TList(hs.TInt), hs.TList(hs.TFloat), hs.TList(hs.TStr), hs.TList(hs.TBool),
-	hs.TList(hs.TList(hs.TInt)), hs.TList(tObjA), hs.TList(hs.TOpt(hs.TInt)),
-	hs.TAnyObj, tObjAB,
-	hs.TOpt(hs.TInt), hs.TOpt(hs.TStr), hs.TOpt(hs.TList(hs.TInt)),
+	hs.TList(hs.TList(hs.TInt)), hs.TList(tObjA), hs.TList(hs.TOpt(hs.TInt)), hs.TList(hs.TRange),
+	hs.TAnyObj, tObjAB, tObjOR,
+	hs.TOpt(hs.TInt), hs.TOpt(hs.TStr), hs.TOpt(hs.TList(hs.TInt)), hs.TOpt(hs.TRange),
 	hs.TNull,
 }
 
@@ -201,15 +202,20 @@ func receivers(t hs.Type) []hs.Value {
 		return []hs.Value{hs.BoolV(true), hs.BoolV(false)}
 	case hs.KStr:
 		return []hs.Value{hs.StrV(""), hs.StrV("a"), hs.StrV("abc"), hs.StrV("a,b,,c"), hs.StrV("Hello World"), hs.StrV("é日本"),
-			hs.StrV("123"), hs.StrV("-7"), hs.StrV("12x"), hs.StrV("true"), hs.StrV("1.5"), hs.StrV("[1, 2]"), hs.StrV(`{"a": 1}`)}
+			hs.StrV("123"), hs.StrV("-7"), hs.StrV("12x"), hs.StrV("true"), hs.StrV("1.5"), hs.StrV("[1, 2]"), hs.StrV(`{"a": 1}`),
+			hs.StrV("007"), hs.StrV("9223372036854775808"), hs.StrV("null"), hs.StrV("[null, 1]"), hs.StrV(`{"a": null}`)}
 	case hs.KRange:
 		return []hs.Value{hs.RangeV{Start: 0, End: 0}, hs.RangeV{Start: 0, End: 3}, hs.RangeV{Start: 3, End: 0}, hs.RangeV{Start: 0, End: 3, Incl: true},
 			hs.RangeV{Start: 3, End: 0, Incl: true}, hs.RangeV{Start: -2, End: 2}}
 	case hs.KNull:
 		return []hs.Value{hs.NullV{}}
 	case hs.KAnyObj:
-		return []hs.Value{obj(true), obj(true, "k", hs.IntV(1)), obj(true, "k", hs.IntV(1), "s", hs.StrV("v"), "l", list(iv(1, 2)...))}
+		return []hs.Value{obj(true), obj(true, "k", hs.IntV(1)), obj(true, "k", hs.IntV(1), "s", hs.StrV("v"), "l", list(iv(1, 2)...)),
+			obj(true, "f", hs.FloatV(2), "n", none(), "o", some(hs.IntV(1)), "r", hs.RangeV{Start: 0, End: 3})}
 	case hs.KObj:
+		if _, isOR := t.FieldType("r"); isOR {
+			return []hs.Value{obj(false, "o", some(hs.IntV(1)), "r", hs.RangeV{Start: 0, End: 3}), obj(false, "o", none(), "r", hs.RangeV{Start: 3, End: 0, Incl: true})}
+		}
 		return []hs.Value{obj(false, "a", hs.IntV(1), "b", hs.StrV("x")), obj(false, "a", hs.IntV(0), "b", hs.StrV(""))}
 	case hs.KOpt:
 		switch t.Elem.K {
@@ -219,6 +225,8 @@ func receivers(t hs.Type) []hs.Value {
 			return []hs.Value{some(hs.StrV("a")), none(), some(hs.StrV(""))}
 		case hs.KList:
 			return []hs.Value{some(list()), none(), some(list(iv(1, 2)...))}
+		case hs.KRange:
+			return []hs.Value{some(hs.RangeV{Start: 0, End: 3}), none()}
 		}
 	case hs.KList:
 		switch t.Elem.K {
@@ -236,6 +244,8 @@ func receivers(t hs.Type) []hs.Value {
 			return []hs.Value{list(), list(obj(false, "a", hs.IntV(1))), list(obj(false, "a", hs.IntV(1)), obj(false, "a", hs.IntV(2)), obj(false, "a", hs.IntV(3)))}
 		case hs.KOpt:
 			return []hs.Value{list(), list(none()), list(some(hs.IntV(1)), none(), some(hs.IntV(3)))}
+		case hs.KRange:
+			return []hs.Value{list(), list(hs.RangeV{Start: 0, End: 3}), list(hs.RangeV{Start: 0, End: 3}, hs.RangeV{Start: 3, End: 0}, hs.RangeV{Start: 1, End: 2, Incl: true})}
 		}
 	}
 	panic("no receivers for " + typeName(t))
@@ -331,7 +341,7 @@ func sampleValues(t hs.Type) []hs.Value {
 	case hs.KStr:
 		return []hs.Value{hs.StrV(""), hs.StrV("a"), hs.StrV("zz")}
 	case hs.KRange:
-		return []hs.Value{hs.RangeV{Start: 0, End: 3}}
+		return []hs.Value{hs.RangeV{Start: 0, End: 3}, hs.RangeV{Start: 7, End: 9}}
 	case hs.KList:
 		s := sampleValues(*t.Elem)
 		return []hs.Value{list(), list(s[len(s)-1]), list(s...)}
@@ -398,7 +408,7 @@ func argValues(m Member, pi int, recv hs.Value) []Arg {
 	p := m.Params[pi]
 	if p.Unknown {
 		var out []Arg
-		for _, v := range []hs.Value{hs.IntV(1), hs.StrV("v"), list(iv(1, 2)...), hs.BoolV(true), hs.FloatV(2.5)} {
+		for _, v := range []hs.Value{hs.IntV(1), hs.StrV("v"), list(iv(1, 2)...), hs.BoolV(true), hs.FloatV(2.5), hs.RangeV{Start: 0, End: 3}, some(hs.IntV(4)), obj(false, "a", hs.IntV(1))} {
 			out = append(out, Arg{V: v, T: typeOf(v), U: true})
 		}
 		return out
@@ -485,6 +495,9 @@ func lit(v hs.Value) string {
 		if v.Inner == nil {
 			return "none"
 		}
+		if _, isRange := v.Inner.(hs.RangeV); isRange {
+			return "?(" + lit(v.Inner) + ")" // `?0..3` parses as (?0)..3
+		}
 		return "?" + lit(v.Inner)
 	case *hs.ObjV:
 		if v.Any {
@@ -507,6 +520,12 @@ func bind(name string, v hs.Value, t hs.Type, annotate bool) []string {
 	if o, ok := v.(*hs.ObjV); ok && o.Any {
 		out := []string{fmt.Sprintf("let %s = new { ? };", name)}
 		for _, k := range o.SortedKeys() {
+			if ov, isOpt := o.M[k].(hs.OptV); isOpt && ov.Inner == nil {
+				// a bare `none` has no type: pass it through an annotated variable
+				out = append(out, fmt.Sprintf("let %s_%s: %s = none;", name, k, typeOf(ov).Src()))
+				out = append(out, fmt.Sprintf("%s.set(%s, %s_%s);", name, hs.QuoteStr(k), name, k))
+				continue
+			}
 			out = append(out, fmt.Sprintf("%s.set(%s, %s);", name, hs.QuoteStr(k), lit(o.M[k])))
 		}
 		return out
@@ -538,6 +557,9 @@ func litHoist(v hs.Value, t hs.Type, top bool, name string, pre *[]string) strin
 	case hs.OptV:
 		if v.Inner == nil {
 			return "none"
+		}
+		if _, isRange := v.Inner.(hs.RangeV); isRange {
+			return "?(" + lit(v.Inner) + ")"
 		}
 		return "?" + litHoist(v.Inner, *t.Elem, false, name, pre)
 	case *hs.ObjV:
